@@ -29,7 +29,7 @@ ASSUMPTIONS = [
     'STATE/CONTROL pubsubs of client and pilot joined by the real Session._crosswire_proxy closures over in-memory '
     'proxy pubsubs, synchronous delivery', 'processes are FakeProc objects exiting with the scripted code',
     'get_version shim']
-NOT_REACHED = ['raptor path (C20)', 'several pilots / pilot death (C12, C13)', 'real process spawning (C10)',
+NOT_REACHED = ['raptor path (C20)', 'more than two pilots / pilot death (C12, C13); the second pilot has a stub agent', 'real process spawning (C10)',
                'exceptions thrown by a component outside any per-task section fail the bulk by design and are not generated']
 BUDGET = {'quick': 110, 'thorough': 1500}
 
@@ -58,6 +58,7 @@ def task_spec(draw):
 def cases(draw):
     ops = []
     late = draw(st.integers(0, 3)) == 0      # the pilot is added after (some of) the submissions
+    two  = draw(st.integers(0, 2)) == 0      # a second pilot (stub agent): bulks span two pilots
     nb = draw(st.integers(1, 3 if late else 2))
     n = 0
     for b in range(nb):
@@ -66,6 +67,10 @@ def cases(draw):
             for sp in bulk:
                 if draw(st.integers(0, 2)) > 0:
                     sp['named'] = True        # names the (not yet added) pilot
+        if two:
+            for sp in bulk:
+                if not sp.get('named') and draw(st.integers(0, 3)) == 0:
+                    sp['named2'] = True       # names the second pilot
         n += len(bulk)
         ops.append(['submit', bulk])
         k = draw(st.integers(0, 3))
@@ -77,7 +82,7 @@ def cases(draw):
             ops.append(['cancel', draw(st.lists(st.integers(0, n - 1), min_size=1, max_size=2))])
         if late and draw(st.integers(0, 2)) == 0:
             ops.append(['add_pilot'])
-    return {'kind': 'pipe', 'late_add': late, 'ops': ops,
+    return {'kind': 'pipe', 'late_add': late, 'two': two, 'ops': ops,
             'order': draw(st.lists(st.integers(0, 8), max_size=15)),
             'layout': {'nodes': draw(st.integers(1, 3)), 'cores': draw(st.sampled_from([2, 4, 8])),
                        'gpus': 0, 'lfs': 0, 'mem': 0}}
@@ -133,6 +138,10 @@ def run_case(case):
         res.label('cancel')
     if any(s.get('soe') and (s.get('exit') or s.get('fault')) for b in bulks for s in b):
         res.label('stage_on_error_with_failure')
+    if case.get('two'):
+        res.label('two_pilots')
+        if sim.stub_ran and len(sim.stub_ran) < len(sim.tasks):
+            res.label('two_pilots:both_used')
     if case.get('late_add'):
         res.label('pilot_added_after_submission')
         if sum(1 for b in bulks if any(s.get('named') for s in b)) >= 2:
